@@ -270,3 +270,15 @@ Proof.
   - apply fault_call_rel.
   - intros; apply is_trigger_fails; assumption.
 Qed.
+
+(* ... ON clauses included: the model of the correspondence (faulty_run) *)
+Theorem fault_surfaces_on : forall tr fuel wrapped doc q,
+  hits_on (is_trigger tr) (fault_call None) (fault_call None) (fault_join (fault_call None)) fuel
+          (api_ctx wrapped doc) (JStmt q) ->
+  faulty_run (Some tr) fuel wrapped doc q = Err.
+Proof.
+  intros tr fuel wrapped doc q H. unfold faulty_run.
+  apply (api_surfaces_on (is_trigger tr) (trigger_may_panic (Some tr)) (fault_call None) (fault_call (Some tr))); auto.
+  - apply fault_call_rel.
+  - intros; apply is_trigger_fails; assumption.
+Qed.
